@@ -399,8 +399,10 @@ fn dechunk(mut b: &[u8]) -> Option<Vec<u8>> {
     let mut out = Vec::new();
     loop {
         let line_end = b.windows(2).position(|w| w == b"\r\n")?;
-        let size =
-            usize::from_str_radix(std::str::from_utf8(&b[..line_end]).ok()?.trim(), 16).ok()?;
+        // chunk-size [ ";" chunk-ext ]: extensions are ignored (RFC 9112 7.1.1).
+        let line = std::str::from_utf8(&b[..line_end]).ok()?;
+        let size_field = line.split(';').next().unwrap_or(line).trim();
+        let size = usize::from_str_radix(size_field, 16).ok()?;
         b = &b[line_end + 2..];
         if size == 0 {
             return Some(out);
